@@ -94,4 +94,41 @@ def run (c : Cfg) (s : S) : List L → S
   | [] => s
   | l :: ls => run c (step c s l) ls
 
+/-! ## worker start: ensuring the pipe (`worker.run` before its loop, `rpc.Client.EnsurePipe`, `syncWorkers`)
+
+A worker whose pipe has no fixed destination first calls `EnsurePipe`. The call succeeds or fails in the transport.
+* `reportsFailure` (fix b3f8b31): the rpc client returns the error; before, it returned nil and the worker went on with
+  the zero `api.Pipe` — an empty destination, `SELECT FROM ` for ever (`blind`).
+* `marksStopped` (fix 1b7795d): `worker.run` stores `wsStopped` before it returns the error; before, it just returned
+  and `isStopped()` stayed false (`dead`): `syncWorkers` restarts only stopped workers.
+`syncTick` is `Forwarder.syncWorkers` (every `SyncWorkersIntervalSec`). -/
+
+inductive Start where
+  | ensuring      -- the worker's goroutine is in getPipe
+  | running       -- it has its destination: the poll loop (`S`, `step`) runs
+  | stopped       -- the goroutine has ended and says so
+  | dead          -- the goroutine has ended, isStopped() = false
+  | blind         -- the poll loop runs with an empty destination
+deriving DecidableEq, Repr
+
+inductive StartL where
+  | ensureOk | ensureFail | syncTick
+deriving DecidableEq, Repr
+
+structure StartCfg where
+  reportsFailure : Bool
+  marksStopped : Bool
+deriving DecidableEq, Repr
+
+def startStep (c : StartCfg) : Start → StartL → Start
+  | .ensuring, .ensureOk => .running
+  | .ensuring, .ensureFail =>
+    if c.reportsFailure then (if c.marksStopped then .stopped else .dead) else .blind
+  | .stopped, .syncTick => .ensuring       -- `!ok || w.isStopped()` ⇒ runWorker again
+  | s, _ => s
+
+def startRun (c : StartCfg) (s : Start) : List StartL → Start
+  | [] => s
+  | l :: ls => startRun c (startStep c s l) ls
+
 end Logrange.Forwarder
